@@ -342,6 +342,23 @@ def synthetic(ctx, env, tpm, ghosts, env2=None):
         recipe = vf_search.search_result_from_parent_map(dict(pm), set(missing))
         ctx.count("full_recipe")
         judge(ctx, env, "full", pm, missing, recipe, set(pm), info)
+        if env2 is not None and (missing - {NULL}):
+            # whole-cache recipes drop ghosts from their stop list by design; once such a ghost has been filled in on the
+            # server the walk runs on through it.  The server's count check is what keeps that from going unnoticed: it
+            # may refuse the recipe, but it must never accept it while having walked keys the client did not intend
+            # (they would be treated as already seen and left out of the answer).
+            from breezy.bzr.remote import RemoteRepository
+
+            body = RemoteRepository._serialise_search_recipe(None, ("manual",) + tuple(recipe))
+            strict, err = replay(env2.repo, body, False)
+            ctx.count("full_recipe_ghost_filled")
+            if err is None:
+                extra = (set(strict) - {NULL}) - (set(pm) - {NULL})
+                ctx.check(not extra, "full-ghost-filled:accepted-although-walk-exceeds-intended",
+                          "server accepted a whole-cache recipe (count %r) although it walked unintended keys %r" % (recipe[2], sorted(extra)[:4]),
+                          dict(info, form="full-ghost-filled", cache=jb(pm), missing=jb(set(missing))))
+            else:
+                ctx.hist("full-ghost-filled:refused")
         referenced = set()
         for v in pm.values():
             referenced.update(v)
